@@ -53,11 +53,11 @@ SIGNAL_CONFIGS = {
 }
 
 KINDS = (
-    [("ret",), ("raise",), ("never",), ("reenter",), ("reenter_survived",)]
+    [("ret",), ("raise",), ("raise_base",), ("never",), ("reenter",), ("reenter_survived",)]
     + [("fire", d) for d in (0, 1, 2, 3)]
     + [("fail", d) for d in (0, 1, 2, 3)]
     + [("stop", d) for d in (1, 2, 3)]
-    + [("firestop", 1), ("failstop", 1), ("busy_stop",)]
+    + [("firestop", 1), ("failstop", 1), ("busy_stop",), ("crash", 1)]
 )
 EXTRAS = ("none", "junk_before", "junk_after", "selectable", "junk_after+selectable")
 SMALL_KINDS = [("ret",), ("fire", 1), ("fail", 1), ("fire", 3), ("stop", 1)]
@@ -107,6 +107,8 @@ def make_function(reactor, spinner, spec, rec, run_index, timeout=None):
             return ("value", run_index)
         if k == "raise":
             raise FnError("run%d" % run_index)
+        if k == "raise_base":
+            raise SystemExit("run%d" % run_index)  # (not an Exception: it still ends the run, and the run still cleans up)
         if k == "never":
             rec.deferred = defer.Deferred()
             return rec.deferred
@@ -161,6 +163,12 @@ def make_function(reactor, spinner, spec, rec, run_index, timeout=None):
             rec.calls.append(reactor.callLater(TIMEOUT + 0.5, reactor.stop))
             rec.deferred = defer.Deferred()
             return rec.deferred
+        if k == "crash":
+            # the reactor is stopped behind the Spinner's back: reactor.crash() (or a reactor.stop
+            # looked up before run() replaced it)
+            rec.calls.append(reactor.callLater(kind[1], reactor.crash))
+            rec.deferred = defer.Deferred()
+            return rec.deferred
         if k == "stop":
             # the function itself asks the reactor to stop (as a signal handler would)
             rec.calls.append(reactor.callLater(kind[1], reactor.stop))
@@ -197,6 +205,8 @@ def model_outcomes(spec, run_index, interrupt_at):
         return {val}
     if k == "raise":
         return {err}
+    if k == "raise_base":
+        return {("raised", "SystemExit", None)}
     if k == "reenter":
         return {("raised", "ReentryError", None)}
     if k == "firestop":
@@ -211,7 +221,7 @@ def model_outcomes(spec, run_index, interrupt_at):
         if kind[1] == 0:
             return {err}
         events.append(((kind[1], 0), err))
-    if k == "stop":
+    if k in ("stop", "crash"):
         events.append(((kind[1], 0), ("raised", "NoResultError", None)))
     events.append(((TIMEOUT, 0), ("raised", "TimeoutError", None)))
     if k == "busy_stop" and interrupt_at is not None:
